@@ -469,7 +469,8 @@ class C2Profile(ConfigBlock):
                 profile.set_option("jitter", value)
             elif setting == BeaconSetting.SETTING_DOMAINS:
                 uris = ", ".join(config.uris).encode("latin-1")
-                http_get.set_option("uri", uris)
+                if uris:
+                    http_get.set_option("uri", uris)
             elif setting == BeaconSetting.SETTING_SPAWNTO:
                 # profile.set_option("spawnto", value)
                 # deprecated
